@@ -153,18 +153,19 @@ func (e *Engine) NonIncrementallySearching() (searching, forward, substring bool
 }
 
 func (e *Engine) updateIncrementalSearch() {
-	var regexStr string
-	if hasUpper(*e.isearchBuf) {
-		regexStr = string(*e.isearchBuf)
-	} else {
-		regexStr = "(?i)" + string(*e.isearchBuf)
+	var flags string
+	if !hasUpper(*e.isearchBuf) {
+		flags = "(?i)"
 	}
 
 	var err error
 
-	e.IsearchRegex, err = regexp.Compile(regexStr)
+	// A search text that is not a valid regexp (eg. an unclosed
+	// parenthesis) is searched as it is: without a matcher, every
+	// candidate would be considered a match.
+	e.IsearchRegex, err = regexp.Compile(flags + string(*e.isearchBuf))
 	if err != nil {
-		e.hint.Set(color.FgRed + "Failed to compile i-search regexp")
+		e.IsearchRegex = regexp.MustCompile(flags + regexp.QuoteMeta(string(*e.isearchBuf)))
 	}
 
 	// Refresh completions with the current minibuffer as a filter.
